@@ -4,8 +4,14 @@
    those of the current array for the current table size (so they are the stripes of the element's
    two candidate buckets), and no whole-table operation runs.  Lost updates are excluded by
    linearizability of same-key read-modify-write programs, checked on the real library (T2).
-   The data-race clause is partial: the model enumerates the accesses to size, generation and lock
-   list only; the unsynchronised read of the lock list is a recorded finding (known_findings.txt).
+   The data-race clause: MemDefs.v / MemModel.v give a happens-before model of the acquire/release
+   fragment the locks and the pending-stripes counter use.  The memory orders are read off the C++
+   source on every run (gen/MemOrders.v): [C03_source_memory_orders_sufficient] fails to check if one
+   is weakened; [C03_lock_protected_accesses_never_race] shows that a lock-well-formed execution in
+   which every plain access is made under the lock protecting its location has no data race; the
+   premise is checked on every T2 run (bucket accesses reported by a guarded hook), and the extracted
+   detector [races] decides each run directly.  The unsynchronised read of the lock list is a recorded
+   finding (known_findings.txt).
    Statements only; closed by [exact] of lemmas of ConcInv.v. *)
 From Coq Require Import NArith List.
 From LC Require Import Conc ConcInv.
@@ -31,3 +37,81 @@ Theorem C03_no_critical_section_during_whole_table_operation : forall hp0 rc0 ar
   validated (thr s t) -> forall t', ~ all_holder (thr s t').
 Proof. exact validated_excludes_all_holder. Qed.
 Print Assumptions C03_no_critical_section_during_whole_table_operation.
+
+(* ---- data-race clause: happens-before model with the memory orders of the source (MemDefs.v, MemModel.v) ---- *)
+From LC Require Import gen.MemOrders MemDefs MemModel.
+Theorem C03_source_memory_orders_sufficient :
+  exists o : orders,
+  orders_of_sites sites = Some o /\
+  is_acq (o_tas o) = true /\
+  is_rel (o_clr o) = true /\ is_acq (o_dec o) = true /\ is_rel (o_dec o) = true.
+Proof. exact source_orders_sufficient. Qed.
+Print Assumptions C03_source_memory_orders_sufficient.
+
+Theorem C03_lock_protected_accesses_never_race :
+  forall (o : orders) (prot : nat -> nat) (e : exec),
+  is_acq (o_tas o) = true ->
+  is_rel (o_clr o) = true -> wf_locks e = true -> protected_by prot e = true -> races o e = [].
+Proof. exact lock_protected_race_free. Qed.
+Print Assumptions C03_lock_protected_accesses_never_race.
+
+Theorem C03_lock_protected_accesses_ordered_by_happens_before :
+  forall (o : orders) (prot : nat -> nat) (e : exec),
+  is_acq (o_tas o) = true ->
+  is_rel (o_clr o) = true ->
+  wf_locks e = true ->
+  protected_by prot e = true ->
+  forall (i j : nat) (a b : ev),
+  i < j -> nth_error e i = Some a -> nth_error e j = Some b -> conflict a b = true -> hb o e i j.
+Proof. exact lock_protected_hb. Qed.
+Print Assumptions C03_lock_protected_accesses_ordered_by_happens_before.
+
+Theorem C03_weaker_lock_orders_do_race :
+  forall o : orders,
+  (is_acq (o_tas o) && is_rel (o_clr o))%bool = false ->
+  exists (prot : nat -> nat) (e : exec),
+  wf_locks e = true /\ protected_by prot e = true /\ races o e <> [].
+Proof. exact weak_lock_orders_race. Qed.
+Print Assumptions C03_weaker_lock_orders_do_race.
+
+Theorem C03_release_of_superseded_array_is_ordered :
+  forall (o : orders) (e : exec) (Old : nat -> bool) (w tw dl : nat),
+  (is_acq (o_dec o) && is_rel (o_dec o))%bool = true ->
+  migration_shape e Old w tw dl ->
+  (forall (i : nat) (a : ev),
+  i < w -> nth_error e i = Some a -> acc_old Old a = true -> hb_b o e i w = true) /\
+  (forall i : nat, ~ In (i, w) (races o e)).
+Proof. exact last_decrement_frees_safely. Qed.
+Print Assumptions C03_release_of_superseded_array_is_ordered.
+
+Theorem C03_weaker_decrement_order_does_race :
+  forall o : orders,
+  (is_acq (o_dec o) && is_rel (o_dec o))%bool = false ->
+  exists (e : exec) (Old : nat -> bool) (w tw dl : nat),
+  migration_shape e Old w tw dl /\ (exists i : nat, In (i, w) (races o e)).
+Proof. exact weak_decrement_race_shape. Qed.
+Print Assumptions C03_weaker_decrement_order_does_race.
+
+Theorem C03_detector_is_happens_before :
+  forall (o : orders) (e : exec) (i j : nat), hb_b o e i j = true <-> hb o e i j.
+Proof. exact hb_b_iff. Qed.
+Print Assumptions C03_detector_is_happens_before.
+
+Theorem C03_detector_reports_exactly_unordered_conflicts :
+  forall (o : orders) (e : exec) (i j : nat),
+  In (i, j) (races o e) <->
+  i < j /\
+  (exists a b : ev,
+  nth_error e i = Some a /\ nth_error e j = Some b /\ conflict a b = true /\ hb_b o e i j = false).
+Proof. exact races_spec. Qed.
+Print Assumptions C03_detector_reports_exactly_unordered_conflicts.
+
+Theorem C03_source_orders_race_free :
+  forall o : orders,
+  orders_of_sites sites = Some o ->
+  (forall (prot : nat -> nat) (e : exec),
+  wf_locks e = true -> protected_by prot e = true -> races o e = []) /\
+  (forall (e : exec) (Old : nat -> bool) (w tw dl : nat),
+  migration_shape e Old w tw dl -> forall i : nat, ~ In (i, w) (races o e)).
+Proof. exact source_sites_race_free. Qed.
+Print Assumptions C03_source_orders_race_free.
